@@ -234,6 +234,16 @@ async fn run_sequence(ty: Ty, seq: &[u8]) -> Vec<(String, String)> {
         // only the unbound endpoint stopped: every other bind still accepts; every unbound endpoint refuses
         for ep in &ever {
             let bound = model.contains(ep);
+            // a port released by an earlier unbind may be handed out again by the kernel to a later bind(port 0) of this
+            // very sequence under another spelling of the host (tcp://localhost:0 after tcp://127.0.0.1:P was unbound):
+            // then the old endpoint "accepts" again, legitimately - not judged
+            if !bound {
+                if let Endpoint::Tcp(_, port) = ep {
+                    if model.iter().any(|m| matches!(m, Endpoint::Tcp(_, p) if p == port)) {
+                        continue;
+                    }
+                }
+            }
             let refused = e4::refuses(ep).await;
             if bound && refused {
                 viol.push(("bound-endpoint/refuses".into(), format!("{}: {} is bound but refuses connections", at, ep)));
